@@ -472,6 +472,255 @@ theorem build_ne_nil (p : Int × α) (r : List (Int × α)) : (build (p :: r)).1
   simp at this
   omega
 
+/-! ### removing one element: slice at an end, hole in the middle -/
+
+theorem mem_kden_drop_one (vs : List (Option α)) (off : Int) (c : α) (h : kget vs 0 = some c) (j : Int) (y : α) :
+    (j, y) ∈ kden (vs.drop 1) (off + 1) ↔ (j, y) ∈ kden vs off ∧ ¬ (j = off ∧ y = c) := by
+  rw [mem_kden, mem_kden, kget_drop]
+  constructor
+  · rintro ⟨h1, h2⟩
+    have : 1 + (j - (off + 1)).toNat = (j - off).toNat := by omega
+    rw [this] at h2
+    exact ⟨⟨by omega, h2⟩, fun hc => by omega⟩
+  · rintro ⟨⟨h1, h2⟩, h3⟩
+    have hne : j ≠ off := by
+      intro he; subst he
+      have : (j - j).toNat = 0 := by omega
+      rw [this, h] at h2
+      exact h3 ⟨rfl, (Option.some.inj h2).symm⟩
+    have : 1 + (j - (off + 1)).toNat = (j - off).toNat := by omega
+    exact ⟨by omega, by rw [this]; exact h2⟩
+
+theorem mem_kden_drop_last (vs : List (Option α)) (off : Int) (c : α) (h : kget vs (vs.length - 1) = some c)
+    (j : Int) (y : α) :
+    (j, y) ∈ kden (vs.take (vs.length - 1)) off ↔
+      (j, y) ∈ kden vs off ∧ ¬ (j = off + ((vs.length - 1 : Nat) : Int) ∧ y = c) := by
+  rw [mem_kden, mem_kden, kget_take]
+  have hlen := kget_some_lt h
+  constructor
+  · rintro ⟨h1, h2⟩
+    split at h2
+    · rename_i hlt
+      exact ⟨⟨h1, h2⟩, fun hc => by omega⟩
+    · cases h2
+  · rintro ⟨⟨h1, h2⟩, h3⟩
+    have hjl := kget_some_lt h2
+    have hne : (j - off).toNat ≠ vs.length - 1 := by
+      intro he
+      rw [he, h] at h2
+      exact h3 ⟨by omega, (Option.some.inj h2).symm⟩
+    have : (j - off).toNat < vs.length - 1 := by omega
+    exact ⟨h1, by simp [this, h2]⟩
+
+theorem mem_kden_eraseAt (vs : List (Option α)) (off : Int) (n : Nat) (c : α) (h : kget vs n = some c)
+    (j : Int) (y : α) :
+    (j, y) ∈ kden (eraseAt vs n) off ↔ (j, y) ∈ kden vs off ∧ ¬ (j = off + (n : Int) ∧ y = c) := by
+  rw [mem_kden, mem_kden]
+  unfold eraseAt
+  rw [kget_set]
+  have hlen := kget_some_lt h
+  constructor
+  · rintro ⟨h1, h2⟩
+    split at h2
+    · cases h2
+    · rename_i hne
+      refine ⟨⟨h1, h2⟩, fun hc => hne ⟨by omega, by omega⟩⟩
+  · rintro ⟨⟨h1, h2⟩, h3⟩
+    refine ⟨h1, ?_⟩
+    split
+    · rename_i he
+      exfalso
+      have hn : n = (j - off).toNat := he.1
+      rw [← hn, h] at h2
+      exact h3 ⟨by omega, (Option.some.inj h2).symm⟩
+    · exact h2
+
+theorem counts_drop_one (vs : List (Option α)) (c : α) (h : kget vs 0 = some c) :
+    kholes (vs.drop 1) = kholes vs ∧ kcount (vs.drop 1) + 1 = kcount vs := by
+  cases vs with
+  | nil => simp [kget_nil] at h
+  | cons v r =>
+    rw [kget_cons_zero] at h
+    subst h
+    simp [kholes, kcount]
+
+theorem counts_eraseAt (vs : List (Option α)) (n : Nat) (c : α) (h : kget vs n = some c) :
+    kholes (eraseAt vs n) = kholes vs + 1 ∧ kcount (eraseAt vs n) + 1 = kcount vs := by
+  induction vs generalizing n with
+  | nil => simp [kget_nil] at h
+  | cons v r ih =>
+    cases n with
+    | zero =>
+      rw [kget_cons_zero] at h
+      subst h
+      simp [eraseAt, kholes, kcount]
+    | succ n =>
+      rw [kget_cons_succ] at h
+      have := ih n h
+      unfold eraseAt at this ⊢
+      cases v <;> simp [kholes, kcount, this] <;> omega
+
+theorem counts_drop_last (vs : List (Option α)) (c : α) (h : kget vs (vs.length - 1) = some c) :
+    kholes (vs.take (vs.length - 1)) = kholes vs ∧ kcount (vs.take (vs.length - 1)) + 1 = kcount vs := by
+  induction vs with
+  | nil => simp [kget_nil] at h
+  | cons v r ih =>
+    cases r with
+    | nil =>
+      simp only [List.length_cons, List.length_nil, Nat.zero_add, Nat.sub_self, kget_cons_zero] at h
+      subst h
+      simp [kholes, kcount]
+    | cons w t =>
+      have h' : kget (w :: t) ((w :: t).length - 1) = some c := by
+        simp only [List.length_cons] at h ⊢
+        have : t.length + 1 + 1 - 1 = (t.length + 1 - 1) + 1 := by omega
+        rw [this, kget_cons_succ] at h
+        exact h
+      have := ih h'
+      simp only [List.length_cons] at this ⊢
+      have ht : t.length + 1 - 1 = t.length := by omega
+      rw [ht] at this
+      have e : t.length + 1 + 1 - 1 = t.length + 1 := by omega
+      obtain ⟨t1, t2⟩ := this
+      have e2 : List.take (t.length + 1 + 1 - 1) (v :: w :: t) = v :: List.take t.length (w :: t) := by
+        rw [e, List.take_succ_cons]
+      rw [e2]
+      clear e2 e h h' ih ht
+      cases v
+      · simp only [kholes, kcount, t1]; exact ⟨trivial, t2⟩
+      · simp only [kholes, kcount, t1]; exact ⟨trivial, by omega⟩
+
+theorem kden_nil_of_kcount_zero (vs : List (Option α)) (off : Int) (h : kcount vs = 0) : kden vs off = [] := by
+  apply List.eq_nil_of_length_eq_zero
+  rw [length_kden]; exact h
+
+theorem minAt_attained (r : List (Int × α)) (m : Int) : minAt r m = m ∨ ∃ p, p ∈ r ∧ p.1 = minAt r m := by
+  induction r generalizing m with
+  | nil => exact Or.inl rfl
+  | cons q r ih =>
+    obtain ⟨i, x⟩ := q
+    simp only [minAt]
+    split
+    · rcases ih i with h | ⟨p, hp, he⟩
+      · exact Or.inr ⟨(i, x), by simp, h.symm⟩
+      · exact Or.inr ⟨p, List.mem_cons_of_mem _ hp, he⟩
+    · rcases ih m with h | ⟨p, hp, he⟩
+      · exact Or.inl h
+      · exact Or.inr ⟨p, List.mem_cons_of_mem _ hp, he⟩
+
+theorem maxAt_attained (r : List (Int × α)) (m : Int) : maxAt r m = m ∨ ∃ p, p ∈ r ∧ p.1 = maxAt r m := by
+  induction r generalizing m with
+  | nil => exact Or.inl rfl
+  | cons q r ih =>
+    obtain ⟨i, x⟩ := q
+    simp only [maxAt]
+    split
+    · rcases ih i with h | ⟨p, hp, he⟩
+      · exact Or.inr ⟨(i, x), by simp, h.symm⟩
+      · exact Or.inr ⟨p, List.mem_cons_of_mem _ hp, he⟩
+    · rcases ih m with h | ⟨p, hp, he⟩
+      · exact Or.inl h
+      · exact Or.inr ⟨p, List.mem_cons_of_mem _ hp, he⟩
+
+/-- the indices claimed by the pairs form a contiguous range -/
+def NoGap (ps : List (Int × α)) : Prop :=
+  ∀ i, (∃ p q, p ∈ ps ∧ q ∈ ps ∧ p.1 ≤ i ∧ i ≤ q.1) → ∃ x, (i, x) ∈ ps
+
+/-- a gap-free, non-superimposed list of pairs builds a slice without holes -/
+theorem build_full (ps : List (Int × α)) (hf : Functional ps) (hg : NoGap ps) :
+    ∀ n, n < (build ps).1.length → ∃ x, kget (build ps).1 n = some x := by
+  cases ps with
+  | nil => intro n hn; simp [build] at hn
+  | cons q r =>
+    intro n hn
+    rw [build_length] at hn
+    have hlo : ∃ p, p ∈ q :: r ∧ p.1 = minAt r q.1 := by
+      rcases minAt_attained r q.1 with h | ⟨p, hp, he⟩
+      · exact ⟨q, by simp, h.symm⟩
+      · exact ⟨p, List.mem_cons_of_mem _ hp, he⟩
+    have hhi : ∃ p, p ∈ q :: r ∧ p.1 = maxAt r q.1 := by
+      rcases maxAt_attained r q.1 with h | ⟨p, hp, he⟩
+      · exact ⟨q, by simp, h.symm⟩
+      · exact ⟨p, List.mem_cons_of_mem _ hp, he⟩
+    obtain ⟨p1, hp1, e1⟩ := hlo
+    obtain ⟨p2, hp2, e2⟩ := hhi
+    obtain ⟨x, hx⟩ := hg (minAt r q.1 + n) ⟨p1, p2, hp1, hp2, by omega, by omega⟩
+    refine ⟨x, ?_⟩
+    have := (mem_kden_build (q :: r) hf _ x).2 hx
+    rw [mem_kden, build_off] at this
+    have e : (minAt r q.1 + ↑n - minAt r q.1).toNat = n := by omega
+    rw [e] at this
+    exact this.2
+
+/-! ### adding one element: append, prepend (with padding), fill a hole -/
+
+theorem kden_append (a b : List (Option α)) (off : Int) :
+    kden (a ++ b) off = kden a off ++ kden b (off + a.length) := by
+  induction a generalizing off with
+  | nil => simp [kden]
+  | cons v r ih =>
+    have e : off + 1 + (r.length : Int) = off + ((r.length + 1 : Nat) : Int) := by omega
+    cases v <;> simp [kden, ih, e]
+
+theorem kden_replicate_none (k : Nat) (off : Int) : kden (List.replicate k (none : Option α)) off = [] := by
+  induction k generalizing off with
+  | zero => rfl
+  | succ k ih => simp [List.replicate_succ, kden, ih]
+
+theorem kcount_append (a b : List (Option α)) : kcount (a ++ b) = kcount a + kcount b := by
+  induction a with
+  | nil => simp [kcount]
+  | cons v r ih => cases v <;> simp [kcount, ih] <;> omega
+
+theorem kholes_append (a b : List (Option α)) : kholes (a ++ b) = kholes a + kholes b := by
+  induction a with
+  | nil => simp [kholes]
+  | cons v r ih => cases v <;> simp [kholes, ih] <;> omega
+
+theorem kcount_replicate_none (k : Nat) : kcount (List.replicate k (none : Option α)) = 0 := by
+  induction k with
+  | zero => rfl
+  | succ k ih => simp [List.replicate_succ, kcount, ih]
+
+theorem mem_kden_setAt (vs : List (Option α)) (off : Int) (n : Nat) (x : α) (hn : n < vs.length)
+    (h : kget vs n = none) (j : Int) (y : α) :
+    (j, y) ∈ kden (setAt vs n (some x)) off ↔ (j, y) ∈ kden vs off ∨ (j = off + (n : Int) ∧ y = x) := by
+  rw [mem_kden, mem_kden]
+  unfold setAt
+  rw [kget_set]
+  constructor
+  · rintro ⟨h1, h2⟩
+    split at h2
+    · rename_i he
+      exact Or.inr ⟨by omega, (Option.some.inj h2).symm⟩
+    · exact Or.inl ⟨h1, h2⟩
+  · rintro (⟨h1, h2⟩ | ⟨h1, h2⟩)
+    · refine ⟨h1, ?_⟩
+      split
+      · rename_i he
+        rw [← he.1, h] at h2; cases h2
+      · exact h2
+    · subst h1; subst h2
+      refine ⟨by omega, ?_⟩
+      have : (off + ↑n - off).toNat = n := by omega
+      simp [this, hn]
+
+theorem kcount_setAt_hole (vs : List (Option α)) (n : Nat) (x : α) (hn : n < vs.length) (h : kget vs n = none) :
+    kcount (setAt vs n (some x)) = kcount vs + 1 := by
+  induction vs generalizing n with
+  | nil => simp at hn
+  | cons v r ih =>
+    cases n with
+    | zero =>
+      rw [kget_cons_zero] at h
+      subst h
+      simp [setAt, kcount]
+    | succ n =>
+      rw [kget_cons_succ] at h
+      have := ih n (by simpa using hn) h
+      unfold setAt at this ⊢
+      cases v <;> simp [kcount, this]
+
 end KSeq
 
 end Arrai.C01
